@@ -43,23 +43,31 @@ func vfH_C18_adminwills() {
 	vfSetDBTime(env.db, vfBaseTime)
 	k1 := string(vfKeyBytes(1))
 	parser := protocol.NewTextParser(make([]byte, 64), make([]byte, 64))
-	n := vfChoice("wills", 3)
+	n := vfChoice("wills", 4) // 0..3 wills registered in the text sub-session
+	nb := vfChoice("binaryWills", 2) // 0..1 wills registered in binary form before the switch
 	var script []byte
 	for i := 0; i < n; i++ {
 		script = append(script, parser.BuildRequest([]string{"LOCK", k1, "LOCK_ID", string(vfIdBytes(uint8(50 + i))), "EXPRIED", "100", "TIMEOUT", "0", "COUNT", "5", "WILL", "1"})...)
 	}
 	conn := &vfScriptConn{in: script}
 	bp := NewBinaryServerProtocol(env.slock, NewStream(conn))
+	for i := 0; i < nb; i++ {
+		w := env.newCmd(protocol.COMMAND_WILL_LOCK, vfKey(1), vfLockId(uint8(40+i)))
+		w.Expried, w.ExpriedFlag, w.Count = 100, 0x0200, 5
+		_ = bp.ProcessCommad(w)
+	}
 	err := bp.ProcessCommad(protocol.NewAdminCommand(0))
 	vfAssert(err != nil, "C18: harness: the text sub-session did not end with the stream")
 	vfAssert(conn.pos == len(script), "C18: harness: the text sub-session did not consume its input")
 	_ = bp.Close()
 	hs := vfHolders(env.manager(vfKey(1)))
-	vfAssert(len(hs) == n, "C18: wills registered in an ADMIN text sub-session were not each executed exactly once when the connection ended")
+	vfAssert(len(hs) == nb+n, "C18: wills registered in an ADMIN text sub-session were not each executed exactly once when the connection ended")
 	for i := range hs {
-		if i < n {
-			vfAssert(hs[i].command.LockId == vfLockId(uint8(50+i)) && hs[i].locked == 1, "C18: wills of an ADMIN text sub-session ran out of order or more than once")
+		want := vfLockId(uint8(40 + i))
+		if i >= nb {
+			want = vfLockId(uint8(50 + i - nb))
 		}
+		vfAssert(hs[i].command.LockId == want && hs[i].locked == 1, "C18: wills of a connection with an ADMIN text sub-session ran out of order or more than once")
 	}
 	vfReach("end")
 }
